@@ -196,6 +196,7 @@ func (fi *FuncInfo) newCtx() *Ctx {
 func (fi *FuncInfo) CtxAt(b *ssa.BasicBlock) *Ctx {
 	c := fi.newCtx()
 	c.Block = b
+	c.addEntryFacts()
 	c.addDominating(b)
 	return c
 }
@@ -365,11 +366,26 @@ func (c *Ctx) lin1(v ssa.Value) lin.Form {
 				return o
 			case "min", "max":
 				o := c.opaque(v)
+				allNonNeg := true
 				for _, a := range x.Call.Args {
+					af := c.Lin(a)
 					if b.Name() == "min" {
-						c.add(lin.LE(o, c.Lin(a)))
+						c.add(lin.LE(o, af))
 					} else {
-						c.add(lin.GE(o, c.Lin(a)))
+						c.add(lin.GE(o, af))
+					}
+					if !c.Entails(lin.GE0(af)) {
+						allNonNeg = false
+					}
+				}
+				// the result is one of the arguments
+				if allNonNeg {
+					c.add(lin.GE0(o))
+				}
+				if b.Name() == "max" && len(x.Call.Args) == 2 {
+					// max(a,b) <= a+b when both are non-negative
+					if allNonNeg {
+						c.add(lin.LE(o, c.Lin(x.Call.Args[0]).Add(c.Lin(x.Call.Args[1]))))
 					}
 				}
 				return o
@@ -489,6 +505,18 @@ func (c *Ctx) linBinOp(x *ssa.BinOp) lin.Form {
 		}
 		if c.Entails(lin.GE0(b)) {
 			c.add(lin.GE0(o), lin.LE(o, b))
+		}
+		return o
+	case token.AND_NOT:
+		// clearing bits of a non-negative value keeps it in [0, value]
+		o := c.opaque(x)
+		a := c.Lin(x.X)
+		if c.Entails(lin.GE0(a)) {
+			c.add(lin.GE0(o), lin.LE(o, a))
+			if k, ok := constInt(x.Y); ok && k.Sign() >= 0 {
+				// at most k is removed
+				c.add(lin.GE(o, a.Sub(lin.KB(k))))
+			}
 		}
 		return o
 	case token.OR, token.XOR:
